@@ -104,6 +104,22 @@ def harness_hash():
     return tree_hash(HARNESS)
 
 
+def corpus_stamp(prop, units):
+    """what the words of an in-region corpus line mean depends on the site decoders: shared harness headers, the property's own
+    header(s) and its plan generator. A corpus harvested under another stamp is stale and is not replayed."""
+    files = [os.path.join(HARNESS, f) for f in ('core.h', 'cnlval.h', 'scaledval.h', 'floatval.h', 'sweep.h')]
+    files += sorted(set(os.path.join(HARNESS, u.header) for u in units))
+    mods, todo = set(), [prop]
+    while todo:  # the plan module and the vgen modules it imports (C14 takes its sites from C13, C07 from C06)
+        m = todo.pop()
+        if m in mods or not os.path.exists(os.path.join(ROOT, 'vgen', m + '.py')):
+            continue
+        mods.add(m)
+        todo += re.findall(r'^from \.(\w+) import', open(os.path.join(ROOT, 'vgen', m + '.py')).read(), re.M)
+    files += [os.path.join(ROOT, 'vgen', m + '.py') for m in sorted(mods)]
+    return sha(*[open(f).read() for f in files if os.path.exists(f)])[:16]
+
+
 def engine_obj():
     """rapidcheck engine: never sees CNL, compiled once per harness version."""
     os.makedirs(BUILD, exist_ok=True)
@@ -384,6 +400,7 @@ def check(prop, tier, seed):
 
     violations = []  # (site, class, replay path)
     results = []
+    corpus_stale = False
 
     # 1. regression replay tier
     regress_dir = os.path.join(ROOT, 'regress', prop)
@@ -435,9 +452,18 @@ def check(prop, tier, seed):
         if os.path.exists(corpus_gz):
             import gzip
             by_cfg = {}
+            stamp = None
             for l in gzip.open(corpus_gz, 'rt'):
                 c, rest = l.split('\t', 1)
+                if c == '#stamp':
+                    stamp = rest.strip()
+                    continue
                 by_cfg.setdefault(c, []).append(rest)
+            if stamp != corpus_stamp(prop, units):
+                # the decoders changed since the harvest: the words no longer mean the inputs that were judged; re-run `verif.py harvest`
+                log('[corpus] %s.inregion.tsv.gz is stale (harvested under another harness / plan version): not replayed' % prop)
+                corpus_stale = True
+                by_cfg = {}
             for c, ls in by_cfg.items():
                 with open(os.path.join(outdir, 'inregion-%s.tsv' % c.replace('+', '_')), 'w') as fh:
                     fh.writelines(ls)
@@ -605,7 +631,7 @@ def check(prop, tier, seed):
             cause_regions={k: dict(passed=v[0], failed=v[1]) for k, v in sorted(ev.get('regions', {}).items())},
             exhaustive=False, exhaustive_subspaces=ev['exhaustive_sites'][:400], exhaustive_subspace_count=len(ev['exhaustive_sites']),
             uncompilable_skipped=sorted(set(sum([u.skipped for u in units], [])))[:200],
-            regress_replayed=n_regress, inregion_corpus_replayed=ev.get('corpus_replayed', 0), build_s=round(t_build, 1), engines=ev.get('engines', []), flaky=ev.get('flaky', []),
+            regress_replayed=n_regress, inregion_corpus_replayed=ev.get('corpus_replayed', 0), inregion_corpus_stale=corpus_stale, build_s=round(t_build, 1), engines=ev.get('engines', []), flaky=ev.get('flaky', []),
         ),
         assumptions=plan.get('assumptions', []),
         wall_s=round(wall, 1), violations=len(violations))
@@ -733,7 +759,7 @@ def main():
         os.makedirs(os.path.join(ROOT, 'corpus'), exist_ok=True)
         dst = os.path.join(ROOT, 'corpus', prop + '.inregion.tsv.gz')
         with gzip.GzipFile(dst, 'wb', mtime=0) as f:
-            f.write(('\n'.join(sorted(lines)) + '\n').encode())
+            f.write(('#stamp\t%s\n' % corpus_stamp(prop, units) + '\n'.join(sorted(lines)) + '\n').encode())
         print('%s: %d in-region passing cases harvested into %s' % (prop, len(lines), dst))
         return 0
     if a[0] == 'list':
